@@ -440,3 +440,14 @@ package tree
 //@   props C02
 //@   ispure
 //@   ensures result == c.k
+
+// ---- iterators over a cursor (C02) ----
+
+//@ func forwardIterator.Next
+//@   props C02
+//@   noalloc
+//@   requires iter != nil && curOK(&iter.c)
+//@   modifies iter.c.curr, iter.c.i, iter.c.k, iter.c.gen
+//@   ensures curOK(&iter.c)
+//@   ensures old(iter.c.curr) == nil ==> !result1 && iter.c.curr == nil
+//@   ensures !result1 ==> iter.c.curr == nil && result0 == zeroof("KVPair[K, V]")
